@@ -125,17 +125,18 @@ impl<'a> Evaluator<'a> {
             }
             Replace([a, from, to]) => {
                 let a = self.next(*a).eval(chunk)?;
-                let from = self.next(*from);
-                let from = match from.node() {
-                    Expr::Constant(DataValue::String(s)) => s,
-                    _ => panic!("replace from must be a string constant"),
-                };
-                let to = self.next(*to);
-                let to = match to.node() {
-                    Expr::Constant(DataValue::String(s)) => s,
-                    _ => panic!("replace to must be a string constant"),
-                };
-                a.replace(from, to)
+                match (self.next(*from).node(), self.next(*to).node()) {
+                    (
+                        Expr::Constant(DataValue::String(from)),
+                        Expr::Constant(DataValue::String(to)),
+                    ) => a.replace(from, to),
+                    // (patterns that are not constants: row by row)
+                    _ => {
+                        let from = self.next(*from).eval(chunk)?;
+                        let to = self.next(*to).eval(chunk)?;
+                        a.replace_array(&from, &to)
+                    }
+                }
             }
             Repeat([str, num]) => {
                 let str = self.next(*str).eval(chunk)?;
